@@ -111,13 +111,15 @@ def penalty_specs(pname, dspec, X, y, fit_intercept, tier, fracs=None):
             out += [dict(name="WeightedL1", alpha=a, weights=WEIGHTS[:p], positive=False)]
         elif pname == "WeightedL1+":
             out += [dict(name="WeightedL1", alpha=a, weights=WEIGHTS[:p], positive=True)]
-        elif pname in ("MCPenalty", "MCPenalty+", "WeightedMCPenalty", "SCAD"):
+        elif pname in ("MCPenalty", "MCPenalty+", "WeightedMCPenalty", "WeightedMCPenalty+0", "SCAD"):
             g = 3.0
-            wmax = 3.0 if pname == "WeightedMCPenalty" else 1.0
+            wmax = 3.0 if pname.startswith("WeightedMCPenalty") else 1.0
             if Lmin is None or not (g * Lmin > wmax * (1 + 1e-9)) or (pname == "SCAD" and not (g - 1 > 1 / Lmin)):
                 continue            # outside the well-posed step range of the non-convex prox
             if pname == "WeightedMCPenalty":
                 out += [dict(name=pname, alpha=a, gamma=g, weights=[1.0, 2.0, 0.5, 3.0, 1.0, 2.0][:p], positive=False)]
+            elif pname == "WeightedMCPenalty+0":       # positivity with an unpenalised (zero-weight) feature
+                out += [dict(name="WeightedMCPenalty", alpha=a, gamma=g, weights=[1.0, 0.0, 2.0, 0.5, 0.0, 3.0][:p], positive=True)]
             elif pname == "SCAD":
                 out += [dict(name=pname, alpha=a, gamma=g)]
             else:
